@@ -4,7 +4,7 @@ LEVEL = {"C15": "fault_enumeration"}
 ENGINES = [
     {"name": "E4-schedx", "path": "e4 (+ sched, vsync, vgotomic)", "serves_properties": ["C20", "C04", "C06", "C08", "C09", "C15"],
      "kind_free_text": "cooperative scheduler + DFS over choice sequences with iterative preemption bounding on the real code rebuilt with a go build -overlay that rewrites \"sync\" to verif/vsync and gotomic to verif/vgotomic; separate free-running -race pass"},
-    {"name": "E5-inpackage", "path": "e5", "serves_properties": ["C16", "C17"],
+    {"name": "E5-inpackage", "path": "e5", "serves_properties": ["C14", "C16", "C17"],
      "kind_free_text": "exhaustive enumeration inside a package of the repository that cannot be imported (cmd/wasp, package main): the harness test file is compiled into that package through a go test -overlay, /repo itself is not touched"},
     {"name": "E3-crashx", "path": "e3", "serves_properties": ["C15"],
      "kind_free_text": "crash-point enumeration with real child processes killed by SIGKILL at verif-tag hook points in wasp/messages/store.go, restarted on the same directory"},
@@ -48,6 +48,8 @@ PHASES = {
     ],
     "C14": [
         {"pkg": "e2", "test": "TestC14CrossNode", "phase": "C14/cross-node-delivery"},
+        # the inter-node wiring of package main: two real brokers on loopback ports, node B's RPC endpoint cut by a relay
+        {"pkg": "e5", "test": "TestC14RealCluster", "phase": "C14/real-cluster-wiring"},
     ],
     "C13": [
         {"pkg": "e2", "test": "TestC13Wills", "phase": "C13/will-messages"},
@@ -160,13 +162,13 @@ META = {
         "engine": "E2-brokermc",
         "technique": "exhaustive enumeration of subscriber placements x unreachable-destination subsets x topic/filter pairs on the 2-3 node in-process broker with recording log proxies and fault-injecting inter-node transport",
         "text": "For 2 and 3 nodes: every assignment of {matching, non-matching} subscribers to nodes, every subset of remote nodes unreachable at publish time, 2-4 topic/filter pairs, QoS 1 and 2 (thorough: publisher on either node, subscription gossip of one node withheld). Each node's log must see exactly one successful append iff it hosts a matching subscription known to the publishing node and is reachable, subscribers receive the message exactly once from their own node, an unreachable destination does not stop the others, and the acknowledgement is present iff no destination failed.",
-        "note": "Destinations 'known to the publishing node' are computed from that node's subscription listing with the reference matcher (not from the lookup the publish path uses). Also: the topic published once before anybody subscribes, a second matching subscriber created last on a node, slow (not unreachable) destinations, a remote subscriber that unsubscribed without the publisher being told yet, a local session whose subscription was re-created through another node's RPC API. The inter-node connections use the production dial options (rpc.GRPCClientOptions: interceptor chain, TLS) over the in-memory listener. Round 5: an unreachable node is a real client connection whose transport is refused (the call fails or blocks as the production call options make it), not an error returned by the harness. Round 6: a subscription that comes and goes within one gossip round on a node without matching subscriber (absolute demand: no append there).",
+        "note": "Destinations 'known to the publishing node' are computed from that node's subscription listing with the reference matcher (not from the lookup the publish path uses). Also: the topic published once before anybody subscribes, a second matching subscriber created last on a node, slow (not unreachable) destinations, a remote subscriber that unsubscribed without the publisher being told yet, a local session whose subscription was re-created through another node's RPC API. The inter-node connections use the production dial options (rpc.GRPCClientOptions: interceptor chain, TLS) over the in-memory listener. Round 5: an unreachable node is a real client connection whose transport is refused (the call fails or blocks as the production call options make it), not an error returned by the harness. Round 6: a subscription that comes and goes within one gossip round on a node without matching subscriber (absolute demand: no append there). E5 phase real-cluster-wiring: two real cmd/wasp brokers on loopback ports, matching subscribers on both, 5 publishes while node B is reachable and 5 after a relay in front of its RPC port was cut (never acknowledged, the local subscriber still served): an integration scenario for the wiring of package main, not an enumeration. One-late-answer deviations (client-write, log-append, rpc) around the publish with every node hosting a subscriber.",
     },
     "C13": {
         "engine": "E2-brokermc",
         "technique": "exhaustive cross product of will parameters x termination causes x watcher placements on the 1-3 node in-process broker under virtual time",
         "text": "Will topic {w, w/x} x QoS {0,1,2} x retain x mount point {default, m1} x cause {DISCONNECT, connection loss, keep-alive expiry, protocol error, failure of the hosting node} x every non-empty subset of watcher nodes on 1-2 (quick) / 1-3 (thorough) nodes, three watchers (w, w/+, #) per node plus one in another mount point: after DISCONNECT nobody receives the will within 10 s; otherwise every surviving watcher of the same mount point whose filter matches receives it exactly once with the topic as the client wrote it, and the foreign watcher receives nothing.",
-        "note": "Watchers acknowledge promptly; which survivor publishes the will after a node failure is free; the retain flag / QoS of the delivered copy are not judged here. Also: empty will payload; a later client with the same client id in another mount point; a second tenant's will-bearing session on the failing node; failure detected 500 ms apart on three nodes; clean DISCONNECT followed by node failure with the removal overtaking the creation, or with the removal gossip lost and only a full-state exchange in between. Also: connection loss while the other nodes do not answer (their watchers' subscriptions still listed): the dying session's own node still owes its watchers the will. Round 5: connection lost before the CONNACK was written; retained wills with an empty payload. Round 6: a will larger than a gossip datagram.",
+        "note": "Watchers acknowledge promptly; which survivor publishes the will after a node failure is free; the retain flag / QoS of the delivered copy are not judged here. Also: empty will payload; a later client with the same client id in another mount point; a second tenant's will-bearing session on the failing node; failure detected 500 ms apart on three nodes; clean DISCONNECT followed by node failure with the removal overtaking the creation, or with the removal gossip lost and only a full-state exchange in between. Also: connection loss while the other nodes do not answer (their watchers' subscriptions still listed): the dying session's own node still owes its watchers the will. Round 5: connection lost before the CONNACK was written; retained wills with an empty payload. Round 6: a will larger than a gossip datagram. One-late-answer deviations under each will-owing cause (2 nodes, watchers on both).",
     },
     "C12": {
         "engine": "E2-brokermc",
@@ -178,7 +180,7 @@ META = {
         "engine": "E2-brokermc",
         "technique": "explicit enumeration of a session-script grammar x termination causes x gossip delivery policies on the 1-3 node in-process broker under virtual time",
         "text": "Every script connect(keep-alive 2|10 s) . up to 2 (quick) / 3 (thorough) middle events (subscribe sets, unsubscribes, ping, idle 1 s / 3.5 s / 0.9K / 1.4K, also directly after CONNACK) . cause (none, DISCONNECT, drop, silence > 2K, second CONNECT, displacement on the same / another node, failure of the hosting node) under gossip policies auto / withhold-all / reverse / withhold-one; the session must survive every legal script, and after a cause the connection is closed, record and subscriptions vanish from every node, nothing more is written to it, and every listed subscription belongs to a listed session connected on the node it names.",
-        "note": "Scripts also contain deliveries to the session followed by silence, a connection lost between SUBSCRIBE and SUBACK, and keep-alive values at the 16-bit edges (32767, 32768, 32769, 65535). A path keeps being judged after the known finding matched. Only silences <= 1.4 x keep-alive are required to be survived (any allowance >= 1.5 x keep-alive satisfies the oracle); the broker may, not must, end a session silent for > 2K; clean broker shutdown is outside the quantifier. Also: the second connection accepted by a node that has not heard of the first session yet (record arrives afterwards: the newer connection must stay served, the older be displaced and its record removed), and session ends left in a node's transmit queue while a third node is declared failed. Round 5: another client's CONNECT accepted while the connection breaks before the CONNACK can be written (nothing of it may remain). Round 6: phases pipelined-connect (packets sent behind CONNECT without waiting for CONNACK, in one write or cut at 30 / 4200 bytes) and peers-fail-together (two nodes declared failed 0 to 6 s apart).",
+        "note": "Scripts also contain deliveries to the session followed by silence, a connection lost between SUBSCRIBE and SUBACK, and keep-alive values at the 16-bit edges (32767, 32768, 32769, 65535). A path keeps being judged after the known finding matched. Only silences <= 1.4 x keep-alive are required to be survived (any allowance >= 1.5 x keep-alive satisfies the oracle); the broker may, not must, end a session silent for > 2K; clean broker shutdown is outside the quantifier. Also: the second connection accepted by a node that has not heard of the first session yet (record arrives afterwards: the newer connection must stay served, the older be displaced and its record removed), and session ends left in a node's transmit queue while a third node is declared failed. Round 5: another client's CONNECT accepted while the connection breaks before the CONNACK can be written (nothing of it may remain). Round 6: phases pipelined-connect (packets sent behind CONNECT without waiting for CONNACK, in one write or cut at 30 / 4200 bytes) and peers-fail-together (two nodes declared failed 0 to 6 s apart). One-late-answer deviations (client-write 1..10) on short scripts with keep-alive 10 s.",
     },
     "C05": {
         "engine": "E2-brokermc",
